@@ -2524,6 +2524,9 @@ impl CommonElementAttributes {
         if self.event_bindings.len() > 0 {
             return false;
         }
+        if self.data.len() > 0 {
+            return false;
+        }
         if self.marks.len() > 0 {
             return false;
         }
